@@ -358,6 +358,22 @@ func c07case(c *engine.Ctx, env *zygo.Zlisp, a, b num) {
 			}
 		}
 	}
+	// the same two numbers inside containers: arrays and lists compare element by element, so a one-element container
+	// (and a container whose other elements are equal) orders exactly as its element does; NaN stays unordered
+	if judged {
+		for _, op := range c07cmpOps {
+			scalar := zy.Eval(env, "("+op+" aa bb)").Short()
+			for _, src := range []string{"(" + op + " [aa] [bb])", "(" + op + " [7 aa 2] [7 bb 2])", "(" + op + " (list aa) (list bb))", "(" + op + " [[aa]] [[bb]])"} {
+				r := zy.Eval(env, src)
+				out.WriteString(r.Short() + "|")
+				if r.Panic != "" {
+					c.Violation("panic", "C07/panic/container/"+op+"/"+pair, w, src+": "+r.Panic)
+				} else if r.Short() != scalar {
+					c.Violation("compare-in-container", "C07/compare-in-container/"+op+"/"+pair, w, fmt.Sprintf("%s with aa = %s, bb = %s gave %s; (%s aa bb) gives %s", src, a.sexp().SexpString(nil), b.sexp().SexpString(nil), r, op, scalar))
+				}
+			}
+		}
+	}
 	// hash lookup keyed by the first operand (Compare == 0 decides)
 	if a.kind == b.kind && (a.kind == 'I' || a.kind == 'C') {
 		zy.Eval(env, "(def hh (hash))")
@@ -442,6 +458,16 @@ func c07nary(c *engine.Ctx, env *zygo.Zlisp, only string) {
 					if fs != ns {
 						c.Violation("nary-fold", "C07/nary-fold/"+op+"/"+string(a.kind)+string(b.kind)+string(d.kind), w, fmt.Sprintf("(%s %s %s %s) gives %s, the left fold (%s (%s a b) c) gives %s", op, a.sexp().SexpString(nil), b.sexp().SexpString(nil), d.sexp().SexpString(nil), flat, op, op, nested))
 					}
+					// the same call through apply on one argument array, twice: the answer is the same both times and
+					// the array still holds the operands
+					zy.Eval(env, "(def av [aa bb cc])")
+					ap1 := zy.Eval(env, "(apply "+op+" av)")
+					ap2 := zy.Eval(env, "(apply "+op+" av)")
+					still := zy.Eval(env, "(str av)").Short()
+					want := zy.Eval(env, "(str [aa bb cc])").Short()
+					if ap1.Short() != fs || ap2.Short() != fs || still != want {
+						c.Violation("nary-apply", "C07/nary-apply/"+op, w, fmt.Sprintf("(def av [%s %s %s]): (apply %s av) gives %s, again %s, the direct call gives %s; av is then %s", a.sexp().SexpString(nil), b.sexp().SexpString(nil), d.sexp().SexpString(nil), op, ap1, ap2, flat, still))
+					}
 					c.Outcome("N|" + op + "|" + fs)
 				}
 			}
@@ -453,7 +479,7 @@ func init() {
 	engine.Register(&engine.Check{
 		ID:    "C07",
 		Level: "exploration",
-		Rule: "all ordered pairs over a boundary grid of int64/uint64/char/float64 values (bound as Go values with AddGlobal) x 6 comparison operators (for a value against itself also with one object on both sides: alias, parameter used twice), hash lookup, and + - * / mod; three-operand calls (op a b c) over 14 ints/floats in all mixes must equal the left fold of binary calls; " +
+		Rule: "all ordered pairs over a boundary grid of int64/uint64/char/float64 values (bound as Go values with AddGlobal) x 6 comparison operators (for a value against itself also with one object on both sides: alias, parameter used twice), hash lookup, and + - * / mod; three-operand calls (op a b c) over 14 ints/floats in all mixes must equal the left fold of binary calls, also through (apply op av) twice on one argument array (which must be left unchanged); every judged pair again inside one-element and equal-prefix arrays, lists and nested arrays (same verdict as the scalars); " +
 			"oracle computed with math/big and Go fixed-width arithmetic; distinct_nontrivial = distinct result vectors of a pair",
 		Assumptions: []string{
 			"not specified by the property and therefore only checked for 'no panic': int64 vs uint64, int vs char and uint64 vs float comparisons; arithmetic between char and integers; mod with a float operand",
